@@ -504,7 +504,11 @@ def classify_nsum(mp, desc, f, p, units):
     finally:
         mp.prec = old
     if gave_up:
-        return 'C27/nsum/not-converged-at-maxterms-best-estimate-returned-silently', round(min(units, 1e6), 1)
+        # finite partition fixed a priori: method x series class x precision bucket (maxterms = 10*dps is smallest at low precision)
+        canon = {'r': 'richardson', 's': 'shanks', 'l': 'levin', 'a': 'alternating', 'e': 'euler-maclaurin', 'd': 'direct'}
+        dps = __import__('mpmath').libmp.prec_to_dps(p)     # maxterms defaults to 10*dps; 53 bits (the default precision) is dps 15
+        return 'C27/nsum/not-converged-at-maxterms-best-estimate-returned-silently/%s/%s/%s' % (
+            canon.get(method, method), desc['series']['cls'], 'dps<=14' if dps <= 14 else 'dps>=15'), round(min(units, 1e6), 1)
     # 3. Euler-Maclaurin: is the tail integral (quad over [N, inf], error estimate accepted) itself off?
     sd = desc['series']
     if method in ('e', 'euler-maclaurin', 'r+s+e') and sd['kind'] == 'ratl' and sd['form'] == 'hz' and not sd.get('alt'):
@@ -781,14 +785,23 @@ def run_direct(mp, rec, desc):
                         continue
                     v, e = (L.update(terms) if how == 'update' else L.update_psum(psums))
                     break
-                if how == 'update':
-                    v, e = L.update(terms)
-                elif how == 'update_psum':
-                    v, e = L.update_psum(psums)
-                elif how == 'step':
-                    v, e = L.step(t)
-                else:
-                    v, e = L.step_psum(s)
+                try:
+                    if how == 'update':
+                        v2, e = L.update(terms)
+                    elif how == 'update_psum':
+                        v2, e = L.update_psum(psums)
+                    elif how == 'step':
+                        v2, e = L.step(t)
+                    else:
+                        v2, e = L.step_psum(s)
+                except ZeroDivisionError:
+                    # 0/0 once the transformation has converged exactly (cf. the documented behaviour of shanks): a caller
+                    # following the documented loop 'if e < eps: break' has stopped at the previous estimate
+                    if good >= 1:
+                        rec.event('levin direct: stopped by 0/0 after a converged estimate')
+                        break
+                    raise
+                v = v2
                 # protocol (fixed a priori): stop at the second consecutive error estimate below 2^-(p+10)
                 good = good + 1 if e < tol else 0
                 if good >= 2:
@@ -1163,6 +1176,10 @@ WITNESSES = [
     {'kind': 'nsum', 'series': {'kind': 'ratl', 'cls': 'nonint', 'form': 'hz', 'c': [-14, -2], 'beta': [1, -1], 's': [3, -1]}, 'range': [[0, '+inf']],
      'prec': 53, 'method': 'euler-maclaurin'},
     {'kind': 'nprod', 'prod': {'form': 'wallis'}, 'range': [1, '+inf'], 'prec': 100, 'kw': {'method': 'e'}},
+    {'kind': 'nsum', 'series': {'kind': 'ratl', 'cls': 'ratl', 'form': 'hz', 'c': [-11, -2], 'beta': [4, -1], 's': 3}, 'range': [[3, '+inf']],
+     'prec': 30, 'method': 'richardson'},
+    {'kind': 'nsum', 'series': {'kind': 'ratl', 'cls': 'ratl', 'form': 'hz', 'c': [15, -2], 'beta': [3, -1], 's': 2}, 'range': [[10, '+inf']],
+     'prec': 46, 'method': 'levin', 'kw': {'levin_variant': 'u'}},
 ]
 
 PRECS = [30, 40, 53, 64, 80, 100, 113, 120, 146, 150, 200, 221, 250, 281, 300]
